@@ -19,6 +19,7 @@ def main():
   r.add_argument('path')
   a = ap.parse_args()
   if a.cmd == 'check':
+    os.environ['VERIF_TIER'] = a.tier
     mod = importlib.import_module('vf.checks.%s' % a.pid.lower())
     sys.exit(framework.run_check(mod, a.tier))
   if a.cmd == 'replay':
